@@ -17,6 +17,7 @@ import (
 	"go/token"
 	"go/types"
 	"sort"
+	"strconv"
 	"strings"
 	"sync"
 	"time"
@@ -42,6 +43,7 @@ type ovPoint struct {
 	GoApp    []bool   `json:"goapp"`
 	XApp     []bool   `json:"xapp"`
 	Kind     string   `json:"kind,omitempty"` // replay only: the realisation that failed
+	Pre      *ovPoint `json:"pre,omitempty"`  // replay only: a rejected call made through the same callee element first
 }
 
 type ovSig struct {
@@ -99,11 +101,22 @@ func ovFuncDecl(recv, name string, sg ovSig, res string, bodyless bool) string {
 
 var ovKinds = []string{"func", "mval", "mptr", "iface", "xgoo", "inpkg", "op"}
 
+// index suffix of a family member: base 36 (F__0 .. F__9, F__a, F__b, ..)
+func ovIdx(i int) string { return strconv.FormatInt(int64(i), 36) }
+
+// slot i of an XGoo_ list is left blank (it then stands for X<fam>__<index>): every third slot and every slot from 9 on
+func ovBlankSlot(i int) bool { return i%3 == 2 || i >= 9 }
+
+const ovMaxFam = 12
+
 // fixture source of package ov for the given families
 func ovFixture(fams [][]int) string {
 	var b strings.Builder
 	b.WriteString("package ov\n\nconst XGoPackage = true\n\ntype MyInt int\ntype Big struct{ v int }\nfunc Big_Init__0(x int) Big { return Big{x} }\nfunc Big_Init__1(s string) Big { return Big{len(s)} }\n")
-	b.WriteString("type R0 struct{}\ntype R1 struct{}\ntype R2 struct{}\nfunc Id[T any](x T) T { return x }\nfunc G__0(x int) int { return x }\n\n")
+	for i := 0; i < ovMaxFam; i++ {
+		fmt.Fprintf(&b, "type R%d struct{}\n", i)
+	}
+	b.WriteString("func Id[T any](x T) T { return x }\nfunc G__0(x int) int { return x }\n\n")
 	for _, f := range fams {
 		n := famName(f)
 		generic := false
@@ -113,13 +126,18 @@ func ovFixture(fams [][]int) string {
 			}
 		}
 		for i, s := range f {
-			b.WriteString(ovFuncDecl("", fmt.Sprintf("F%s__%d", n, i), ovSigs[s], fmt.Sprintf("R%d", i), false))
+			b.WriteString(ovFuncDecl("", fmt.Sprintf("F%s__%s", n, ovIdx(i)), ovSigs[s], fmt.Sprintf("R%d", i), false))
 		}
 		// explicit order through an XGoo_ constant: names in reverse lexical order, so that order can only come from the constant
 		var names []string
 		for i, s := range f {
 			nm := fmt.Sprintf("X%s%c", n, 'z'-byte(i))
-			names = append(names, nm)
+			if ovBlankSlot(i) {
+				nm = fmt.Sprintf("X%s__%s", n, ovIdx(i))
+				names = append(names, "")
+			} else {
+				names = append(names, nm)
+			}
 			b.WriteString(ovFuncDecl("", nm, ovSigs[s], fmt.Sprintf("R%d", i), false))
 		}
 		fmt.Fprintf(&b, "const XGoo_X%s = %q\n", n, strings.Join(names, ","))
@@ -129,15 +147,15 @@ func ovFixture(fams [][]int) string {
 		if ovOpFamily(f) {
 			fmt.Fprintf(&b, "type O%s struct{}\n", n)
 			for i, s := range f {
-				b.WriteString(ovFuncDecl(fmt.Sprintf("(O%s) ", n), fmt.Sprintf("XGo_Add__%d", i), ovSigs[s], fmt.Sprintf("R%d", i), false))
+				b.WriteString(ovFuncDecl(fmt.Sprintf("(O%s) ", n), fmt.Sprintf("XGo_Add__%s", ovIdx(i)), ovSigs[s], fmt.Sprintf("R%d", i), false))
 			}
 		}
 		fmt.Fprintf(&b, "type V%s struct{}\ntype P%s struct{}\n", n, n)
 		var im []string
 		for i, s := range f {
-			b.WriteString(ovFuncDecl(fmt.Sprintf("(V%s) ", n), fmt.Sprintf("M__%d", i), ovSigs[s], fmt.Sprintf("R%d", i), false))
-			b.WriteString(ovFuncDecl(fmt.Sprintf("(*P%s) ", n), fmt.Sprintf("M__%d", i), ovSigs[s], fmt.Sprintf("R%d", i), false))
-			im = append(im, ovFuncDecl("", fmt.Sprintf("M__%d", i), ovSigs[s], fmt.Sprintf("R%d", i), true))
+			b.WriteString(ovFuncDecl(fmt.Sprintf("(V%s) ", n), fmt.Sprintf("M__%s", ovIdx(i)), ovSigs[s], fmt.Sprintf("R%d", i), false))
+			b.WriteString(ovFuncDecl(fmt.Sprintf("(*P%s) ", n), fmt.Sprintf("M__%s", ovIdx(i)), ovSigs[s], fmt.Sprintf("R%d", i), false))
+			im = append(im, ovFuncDecl("", fmt.Sprintf("M__%s", ovIdx(i)), ovSigs[s], fmt.Sprintf("R%d", i), true))
 		}
 		fmt.Fprintf(&b, "type I%s interface {\n\t%s\n}\n", n, strings.Join(im, "\n\t"))
 	}
@@ -245,7 +263,7 @@ func ovReference(ovPkg *types.Package, base types.Importer, need map[string]ovPo
 }
 
 var ovResText = map[string]string{"int": "int", "float64": "float64", "string": "string", "MyInt": "ov.MyInt", "Big": "ov.Big", "sl": "[]int", "fii": "func(x int) int",
-	"R0": "ov.R0", "R1": "ov.R1", "R2": "ov.R2"}
+	"R0": "ov.R0", "R1": "ov.R1", "R2": "ov.R2", "R3": "ov.R3", "R4": "ov.R4", "R5": "ov.R5", "R6": "ov.R6", "R7": "ov.R7", "R8": "ov.R8", "R9": "ov.R9", "R10": "ov.R10", "R11": "ov.R11"}
 
 // ---------- G: the real builder ----------
 
@@ -298,10 +316,12 @@ func (w *ovWorld) goType(p string) types.Type {
 		return types.Typ[types.String]
 	case "any":
 		return types.NewInterfaceType(nil, nil)
-	case "MyInt", "Big", "R0", "R1", "R2":
+	case "MyInt", "Big":
 		return w.ov.Ref(p).Type()
 	case "sl":
 		return types.NewSlice(ti)
+	case "R0", "R1", "R2", "R3", "R4", "R5", "R6", "R7", "R8", "R9", "R10", "R11":
+		return w.ov.Ref(p).Type()
 	case "fii":
 		return types.NewSignatureType(nil, nil, nil, types.NewTuple(types.NewParam(token.NoPos, nil, "x", ti)), types.NewTuple(types.NewParam(token.NoPos, nil, "", ti)), false)
 	}
@@ -333,7 +353,7 @@ func (w *ovWorld) ensureInPkg(f []int) bool {
 			ps = append(ps, types.NewParam(token.NoPos, pkg.Types, fmt.Sprintf("a%d", k), t))
 		}
 		rt := w.goType(fmt.Sprintf("R%d", i))
-		fn := pkg.NewFunc(nil, fmt.Sprintf("l%s__%d", n, i), types.NewTuple(ps...), types.NewTuple(types.NewParam(token.NoPos, pkg.Types, "", rt)), sg.vari)
+		fn := pkg.NewFunc(nil, fmt.Sprintf("l%s__%s", n, ovIdx(i)), types.NewTuple(ps...), types.NewTuple(types.NewParam(token.NoPos, pkg.Types, "", rt)), sg.vari)
 		fn.BodyStart(pkg).ZeroLit(rt).Return(1).End()
 		objs = append(objs, fn.Func)
 	}
@@ -351,7 +371,9 @@ type ovG struct {
 	fault    string
 }
 
-func (w *ovWorld) call(p ovPoint, kind string) (g ovG, applicable bool) {
+// call realises the call of p through the real builder.  With pre, a call that every candidate rejects is made
+// through the same callee element first (CallWithEx pops the arguments only and leaves the callee for another try).
+func (w *ovWorld) call(p ovPoint, kind string, pre ...*ovPoint) (g ovG, applicable bool) {
 	n := famName(p.Fam)
 	pkg := w.pkg
 	switch kind {
@@ -403,26 +425,39 @@ func (w *ovWorld) call(p ovPoint, kind string) (g ovG, applicable bool) {
 	case "op":
 		cb.Val(ref("vO" + n))
 	}
-	for _, a := range p.Call {
-		switch a {
-		case "c1":
-			cb.Val(1)
-		case "c15":
-			cb.Val(&ast.BasicLit{Kind: token.FLOAT, Value: "1.5"})
-		case "cs":
-			cb.Val("s")
-		case "nil":
-			cb.Val(nil)
-		case "gid":
-			cb.Val(w.ov.Ref("Id"))
-		case "ov1":
-			cb.Val(w.ov.Ref("G"))
-		case "tup":
-			cb.Val(ref("pair")).Call(0)
-		default:
-			cb.Val(ref(a))
+	pushArgs := func(call []string) {
+		for _, a := range call {
+			switch a {
+			case "c1":
+				cb.Val(1)
+			case "c15":
+				cb.Val(&ast.BasicLit{Kind: token.FLOAT, Value: "1.5"})
+			case "cs":
+				cb.Val("s")
+			case "nil":
+				cb.Val(nil)
+			case "gid":
+				cb.Val(w.ov.Ref("Id"))
+			case "ov1":
+				cb.Val(w.ov.Ref("G"))
+			case "tup":
+				cb.Val(ref("pair")).Call(0)
+			default:
+				cb.Val(ref(a))
+			}
 		}
 	}
+	if len(pre) > 0 && pre[0] != nil {
+		pushArgs(pre[0].Call)
+		if err := cb.CallWithEx(len(pre[0].Call), 0, ovEllipsis(pre[0].Ell)); err == nil {
+			cb.InternalStack().Pop()
+			cb.ResetStmt()
+			g.rejected, g.msg = true, "harness: the call that no candidate accepts was accepted"
+			return g, true
+		}
+		w.errs = nil
+	}
+	pushArgs(p.Call)
 	if kind == "op" {
 		cb.BinaryOp(token.ADD)
 	} else {
@@ -467,9 +502,8 @@ func ovCalleeIdx(callee, kind string, p ovPoint) int {
 	n := famName(p.Fam)
 	suffix := func(prefix string) int {
 		if strings.HasPrefix(callee, prefix) && len(callee) == len(prefix)+1 {
-			c := callee[len(prefix)]
-			if c >= '0' && c <= '9' {
-				return int(c-'0') + 1
+			if i, err := strconv.ParseInt(callee[len(prefix):], 36, 32); err == nil {
+				return int(i) + 1
 			}
 		}
 		return 0
@@ -481,6 +515,9 @@ func ovCalleeIdx(callee, kind string, p ovPoint) int {
 		return suffix("l" + n + "__")
 	case "xgoo":
 		pre := "ov.X" + n
+		if strings.HasPrefix(callee, pre+"__") {
+			return suffix(pre + "__")
+		}
 		if strings.HasPrefix(callee, pre) && len(callee) == len(pre)+1 {
 			return int('z'-callee[len(pre)]) + 1
 		}
@@ -492,7 +529,9 @@ func ovCalleeIdx(callee, kind string, p ovPoint) int {
 		return suffix("vI" + n + ".M__")
 	case "op":
 		if i := strings.LastIndex(callee, "XGo_Add__"); i >= 0 && len(callee) == i+len("XGo_Add__")+1 {
-			return int(callee[len(callee)-1]-'0') + 1
+			if k, err := strconv.ParseInt(callee[len(callee)-1:], 36, 32); err == nil {
+				return int(k) + 1
+			}
 		}
 	}
 	return 0
@@ -565,14 +604,16 @@ func runC06(tier, replay string) {
 	type cfgT struct {
 		name, sigs, forms string
 		maxFam, maxArgs   int
+		filter            string
 	}
 	allForms := `{"c1","c15","cs","vi","vf","vs","vmy","vsl","vbig","nil","gid","ov1","tup"}`
 	allSigs := "{1,2,3,4,5,6,7,8,9,10,11,12,13,14,15,16,17,18,19,20,21}"
-	confs := []cfgT{{"pairs-of-21-signatures", allSigs, allForms, 2, 2}}
+	confs := []cfgT{{"pairs-of-21-signatures", allSigs, allForms, 2, 2, "all"},
+		{"long-families-12", "{1,3}", `{"vi","vs"}`, ovMaxFam, 1, "threshold"}}
 	if tier == "thorough" {
 		confs = append(confs,
-			cfgT{"triples-rewriting-signatures", "{4,6,7,8,15,18,19,20,21}", allForms, 3, 2},
-			cfgT{"triples-variadic-generic", "{1,3,9,10,11,12,13,17}", `{"c1","c15","cs","vi","vs","vmy","vsl","nil"}`, 3, 3})
+			cfgT{"triples-rewriting-signatures", "{4,6,7,8,15,18,19,20,21}", allForms, 3, 2, "all"},
+			cfgT{"triples-variadic-generic", "{1,3,9,10,11,12,13,17}", `{"c1","c15","cs","vi","vs","vmy","vsl","nil"}`, 3, 3, "all"})
 	}
 	var pts []ovPoint
 	var states, transitions int64
@@ -586,7 +627,7 @@ func runC06(tier, replay string) {
 	} else {
 		// vacuity guard: without the restore step the model must violate the property
 		sab, err := tlc.Run(tlc.Opts{SpecDir: SpecDir, Module: "Overload", Workers: 4, Timeout: 10 * time.Minute,
-			Cfg: fmt.Sprintf("SPECIFICATION Spec\nCONSTANTS\n  SigIds = {8,19,7}\n  MaxFam = 2\n  Forms = {\"vi\",\"vs\",\"c1\"}\n  MaxArgs = 2\n  Restore = FALSE\nINVARIANTS FirstApplicable NoResidue ResultType\nCHECK_DEADLOCK FALSE\n")})
+			Cfg: fmt.Sprintf("SPECIFICATION Spec\nCONSTANTS\n  SigIds = {8,19,7}\n  MaxFam = 2\n  Forms = {\"vi\",\"vs\",\"c1\"}\n  MaxArgs = 2\n  Restore = FALSE\n  FamFilter = \"all\"\nINVARIANTS FirstApplicable NoResidue ResultType\nCHECK_DEADLOCK FALSE\n")})
 		if err != nil {
 			run.Infra(err)
 		}
@@ -598,7 +639,7 @@ func runC06(tier, replay string) {
 			var mu sync.Mutex
 			n := 0
 			res, err := tlc.Run(tlc.Opts{SpecDir: SpecDir, Module: "Overload", Workers: tierWorkers(tier), Heavy: true, HeapMB: 8192, Timeout: 40 * time.Minute,
-				Cfg: fmt.Sprintf("SPECIFICATION Spec\nCONSTANTS\n  SigIds = %s\n  MaxFam = %d\n  Forms = %s\n  MaxArgs = %d\n  Restore = TRUE\nINVARIANTS FirstApplicable NoResidue ResultType Emit\nCHECK_DEADLOCK FALSE\n", c.sigs, c.maxFam, c.forms, c.maxArgs),
+				Cfg: fmt.Sprintf("SPECIFICATION Spec\nCONSTANTS\n  SigIds = %s\n  MaxFam = %d\n  Forms = %s\n  MaxArgs = %d\n  Restore = TRUE\n  FamFilter = %q\nINVARIANTS FirstApplicable NoResidue ResultType Emit\nCHECK_DEADLOCK FALSE\n", c.sigs, c.maxFam, c.forms, c.maxArgs, c.filter),
 				OnJSON: func(l string) {
 					var p ovPoint
 					if json.Unmarshal([]byte(l), &p) == nil && len(p.Fam) > 0 {
@@ -684,6 +725,20 @@ func runC06(tier, replay string) {
 			j = len(pts)
 		}
 		batches = append(batches, pts[i:j])
+	}
+	// per family: up to two calls that no candidate accepts (of different lengths where possible), no named deviation involved
+	rejOf := map[string][]ovPoint{}
+	for _, p := range pts {
+		if p.Idx != 0 || p.DevIdx != 0 || p.DevAbort || (len(p.Call) == 1 && p.Call[0] == "tup") { // (a multi-value call on a generic candidate: KF-C06-3)
+			continue
+		}
+		n := famName(p.Fam)
+		switch r := rejOf[n]; {
+		case len(r) == 0:
+			rejOf[n] = append(r, p)
+		case len(r) == 1 && len(r[0].Call) != len(p.Call):
+			rejOf[n] = append(r, p)
+		}
 	}
 	var mu sync.Mutex
 	kindCount := map[string]int{}
@@ -778,6 +833,25 @@ func runC06(tier, replay string) {
 					}
 					if !sg.rejected && sg.fault == "" && strings.Join(sg.args, " ; ") != strings.Join(g.args, " ; ") {
 						run.Fail("residue-vs-single-candidate/"+p.class(), fmt.Sprintf("%s: emitted arguments (%s); with the chosen candidate alone (%s)", desc, strings.Join(g.args, ", "), strings.Join(sg.args, ", ")), pk)
+					}
+				}
+				// a rejected call through the same callee element first must leave no trace either
+				if kind != "op" {
+					rejs := rejOf[famName(p.Fam)]
+					if p.Pre != nil {
+						rejs = []ovPoint{*p.Pre}
+					}
+					for ri := range rejs {
+						rej := rejs[ri]
+						g2, _ := w.call(p, kind, &rej)
+						local["retry"]++
+						run.Eval("retry:" + kind + ":" + famName(p.Fam) + ":" + strings.Join(rej.Call, ",") + "|" + strings.Join(p.Call, ",") + fmt.Sprint(p.Ell))
+						if g2.fault != "" || g2.rejected != g.rejected || g2.callee != g.callee || g2.res != g.res || strings.Join(g2.args, " ; ") != strings.Join(g.args, " ; ") {
+							pk2 := pk
+							pk2.Pre = &rej
+							run.Fail("rejected-call-leaves-a-trace/"+kind+"/"+p.class(), fmt.Sprintf("%s after the rejected call (%s) through the same callee: %s(%s) %s %s%s; without the rejected call: %s(%s) %s",
+								desc, strings.Join(rej.Call, ", "), g2.callee, strings.Join(g2.args, ", "), g2.res, firstLines(g2.msg, 1), g2.fault, g.callee, strings.Join(g.args, ", "), g.res), pk2)
+						}
 					}
 				}
 			}
